@@ -1,4 +1,5 @@
 #!/bin/sh
+export PYVC_EVIDENCE_DIR=/tmp/pyvc_selftest_evidence
 # usage: try_mutant.sh <patch-file> <prop> [<prop> ...]  -- applies the patch to /repo, runs the checks, reverts.
 p="$1"; shift
 cd /repo && git apply "$p" || { echo "patch does not apply"; exit 9; }
